@@ -258,25 +258,39 @@ def check_strip(acc, c, insts, case, ignore):
 # --- operations ------------------------------------------------------------------------------------------------
 
 
-def apply_op(acc, c, insts, op, case, site):
-    """op = [kind, child key/desc, name, conn] ; mutates c and insts.  Returns False when the call raised."""
+def apply_op(acc, c, insts, op, case, site, pool=None):
+    """op = [kind, child key/desc, name, conn] ; mutates c and insts.  Returns False when the call raised.
+
+    pool (a dict, one per history) switches argument objects from 'fresh per call' to 'one object per distinct
+    value': the same child Circuit, the same BlackBox definition and the same connection dict are then handed to
+    every call of the history that uses them - as a caller instantiating one definition several times does."""
     import circuitgraph as cg
+
+    def pooled(kind_, key, make):
+        if pool is None:
+            return make()
+        k = (kind_, common.jdump(key))
+        if k not in pool:
+            pool[k] = make()
+        return pool[k]
 
     kind = op[0]
     acc.transitions += 1
     try:
         if kind == "S":
             child = op[1]
-            c.add_subcircuit(space.build(child), op[2], dict(op[3]) if op[3] else None)
+            conn = pooled("conn", op[3], lambda: dict(op[3])) if op[3] else None
+            c.add_subcircuit(pooled("circuit", child, lambda: space.build(child)), op[2], conn)
             insts.append(Inst(op[2], child, op[3], "spliced"))
         elif kind == "B":
             child = op[1]
             ins, outs = child_ports(child)
-            c.add_blackbox(cg.BlackBox(child["name"], ins, outs), op[2], dict(op[3]) if op[3] else None)
+            conn = pooled("conn", op[3], lambda: dict(op[3])) if op[3] else None
+            c.add_blackbox(pooled("bb", child, lambda: cg.BlackBox(child["name"], ins, outs)), op[2], conn)
             insts.append(Inst(op[2], child, op[3], "pending"))
         elif kind == "F":
             it = next(i for i in insts if i.name == op[2])
-            c.fill_blackbox(op[2], space.build(it.child))
+            c.fill_blackbox(op[2], pooled("circuit", it.child, lambda: space.build(it.child)))
             it.status = "spliced"
     except Exception as e:  # noqa: BLE001
         acc.violation(site, f"{kind}-raises:{common.exc_name(e)}", case, repr(e))
@@ -313,18 +327,19 @@ def uniq(seq):
     return out
 
 
-def run_history(acc, ops, site, strip=True):
+def run_history(acc, ops, site, strip=True, shared=False):
     """Run one history from the fresh parent, checking after every op."""
     c = space.build(PARENT)
     insts = []
+    pool = {} if shared else None
     for i, op in enumerate(ops):
-        case = {"kind": "history", "ops": ops[: i + 1], "site": site}
-        if not apply_op(acc, c, insts, op, case, site):
+        case = {"kind": "history", "ops": ops[: i + 1], "site": site, "shared": shared}
+        if not apply_op(acc, c, insts, op, case, site, pool):
             return False
         if not check_state(acc, c, insts, case, site):
             return False
     if strip and c.blackboxes:
-        case = {"kind": "history", "ops": ops, "site": site}
+        case = {"kind": "history", "ops": ops, "site": site, "shared": shared}
         for ign in strip_ignores(c):
             check_strip(acc, c, insts, case, ign)
     return True
@@ -431,6 +446,13 @@ def run_hist(job, acc):
         if any(o in (op[3] or {}) for op in ops if op[1] for o in child_ports(op[1])[1]):
             acc.nontrivial += 1
         run_history(acc, ops, "hist")
+        kids = [common.jdump(op[1]) for op in ops if op[1]]
+        conns = [common.jdump(op[3]) for op in ops if op[3]]
+        if len(set(kids)) < len(kids) or len(set(conns)) < len(conns):
+            # one definition instantiated twice / one port map used twice: same argument OBJECTS this time
+            acc.states += 1
+            acc.nontrivial += 1
+            run_history(acc, ops, "hist", strip=False, shared=True)
         if idx % 200 == 0:
             acc.sample({"ops": [[o[0], (o[1] or {}).get("name"), o[2], o[3]] for o in ops]})
         if acc.out_of_time():
@@ -452,11 +474,10 @@ def replay(case, job):
     c = space.build(PARENT)
     insts = []
     ok = True
+    pool = {} if case.get("shared") else None
     for i, op in enumerate(ops):
-        cs = {"kind": "history", "ops": ops[: i + 1]}
-        for site in ("single", "hist"):
-            pass
-        if not apply_op(acc, c, insts, op, cs, case.get("site", "single")):
+        cs = {"kind": "history", "ops": ops[: i + 1], "shared": bool(case.get("shared"))}
+        if not apply_op(acc, c, insts, op, cs, case.get("site", "single"), pool):
             ok = False
             break
         if not check_state(acc, c, insts, cs, case.get("site", "single")):
